@@ -191,8 +191,11 @@ def ann_cmd(rng, p, kind, chunks=2):
         a = a % rng.choice(["garbage", "trunc"])
     if kind == "unexp":
         a = a % rng.choice([-1, -5, -3600])
-    if kind != "assigned":
-        a += rng.choice(["", " asg=1", " asg=1,3"])
+    if kind == "assigned":
+        # an assigned shard the manifest does not carry: out of range, or inside 1..total although only a subset of the shares is carried
+        a = rng.choice([" asg=1,9", " asg=9", " idx=1,2,3 tot=5 asg=5", " idx=1,2,4 tot=5 asg=3", " idx=2,3,5 tot=5 asg=2,1", " idx=1,2 tot=3 asg=3"])
+    else:
+        a += rng.choice(["", " asg=1", " asg=1,3", " idx=2,3,5 tot=5 asg=5", " idx=1,2,3 tot=5 asg=2"])
     return "ann p=%d c=%d%s" % (p, rng.randrange(chunks), a)
 
 
